@@ -11,6 +11,7 @@ import json
 import math
 import random
 import traceback
+from pathlib import Path
 
 import numpy as np
 
@@ -42,7 +43,54 @@ NETWORKS = {   # name -> (topology, equipment library, sim_params or None)
                  {'raman_params': {'flag': True, 'result_spatial_resolution': 10e3, 'solver_spatial_resolution': 50}}),
     'fusedroadm': ('fused_roadm_example_network.json', 'eqpt_config.json', None),
     'edfa': ('edfa_example_network.json', 'eqpt_config.json', None),
+    # variant of the multi-band example (built in memory from the shipped files, see _variant): the line
+    # Site_L <-> Site_A is equipped with ONE-band amplifiers whose band spans L and C, the rest is unchanged, so that
+    # paths cross a wide single-band amplifier before (L -> D) and after (D -> L) the L+C multi-band amplifiers
+    'multiband-wide': ('multiband_example_network.json', 'eqpt_config_multiband.json', None),
 }
+# variant of the mesh example: every second fibre is of a negative-dispersion type (metro NZDSF like: the shipped
+# NZDF with the sign of its dispersion changed) and every ROADM is of the library type 'detailed_impairments'
+# (per-path impairment profiles with loss, OSNR and noise-figure entries for add and drop paths)
+NETWORKS['mesh-mixed'] = ('meshTopologyExampleV2.json', 'eqpt_config.json', None)
+# variant of the Raman example: a weak pump above the comb and two pumps BELOW it (as for a lower band), one
+# counter- and one co-propagating
+NETWORKS['raman-lowpump'] = ('raman_edfa_example_network.json', 'eqpt_config.json',
+                             {'raman_params': {'flag': True, 'result_spatial_resolution': 10e3,
+                                               'solver_spatial_resolution': 50}})
+WIDE_BAND = dict(type_variety='wide_band', f_min=186.0e12, f_max=196.2e12, allowed_for_design=False)
+
+
+def _variant(name, eqpt_json, topo_json):
+    """in-memory edits (configuration only) that turn shipped files into the variants listed in NETWORKS"""
+    if name == 'multiband-wide':
+        wide = next(dict(a) for a in eqpt_json['Edfa'] if a['type_variety'] == 'std_medium_gain')
+        wide.update(WIDE_BAND)
+        eqpt_json['Edfa'].append(wide)
+        for elem in topo_json['elements']:
+            if elem['uid'] in ('east edfa in Site_L to Site_A', 'west edfa in Site_A to Site_L',
+                               'east edfa in Site_A to Site_L', 'west edfa in Site_L to Site_A'):
+                elem['type_variety'] = 'wide_band'
+    if name == 'mesh-mixed':
+        neg = next(dict(f) for f in eqpt_json['Fiber'] if f['type_variety'] == 'NZDF')
+        neg.update(type_variety='NZDF_NEG', dispersion=-neg['dispersion'])
+        eqpt_json['Fiber'].append(neg)
+        fibers = sorted(e['uid'] for e in topo_json['elements'] if e['type'] == 'Fiber')
+        for elem in topo_json['elements']:
+            if elem['type'] == 'Fiber' and fibers.index(elem['uid']) % 2 == 0:
+                elem['type_variety'] = 'NZDF_NEG'
+            if elem['type'] == 'Roadm':
+                elem['type_variety'] = 'detailed_impairments'
+    if name == 'raman-lowpump':
+        for elem in topo_json['elements']:
+            if elem['type'] == 'RamanFiber':
+                elem['operational']['raman_pumps'] = [
+                    {'power': 0.05, 'frequency': 201.0e12, 'propagation_direction': 'counterprop'},
+                    {'power': 0.4, 'frequency': 187.0e12, 'propagation_direction': 'counterprop'},
+                    {'power': 0.2, 'frequency': 184.0e12, 'propagation_direction': 'coprop'}]
+    return eqpt_json, topo_json
+
+
+VARIANTS = {'multiband-wide', 'mesh-mixed', 'raman-lowpump'}
 
 
 # ------------------------------------------------------------------------------------------------- projections
@@ -97,7 +145,9 @@ class Labels:
 
     @staticmethod
     def key(label, tx_power, tx_osnr, roll_off, delta_pdb):
-        return (str(label), float(tx_power), float(tx_osnr), float(roll_off), float(delta_pdb))
+        def num(x):                 # an undetermined mode has no tx_osnr yet (None)
+            return -1.0 if x is None else float(x)
+        return (str(label), num(tx_power), num(tx_osnr), num(roll_off), num(delta_pdb))
 
     def declare(self, keys):
         for k in sorted(set(keys)):
@@ -147,12 +197,21 @@ def network(name):
     topo, eqpt, sp = NETWORKS[name]
     res = None
     try:
-        eq = load_equipments_and_configs(EX / eqpt, [], [])
-        try:
-            net = load_network(EX / topo, eq)
-        except Exception as e1:                     # noqa  (YANG validation of the shipped file fails)
-            net = network_from_json(load_json(EX / topo), eq)
-            LOAD_NOTES[name] = f'load_network failed ({type(e1).__name__}); loaded with network_from_json(load_json())'
+        if name in VARIANTS:
+            import tempfile
+            eqpt_json, topo_json = _variant(name, load_json(EX / eqpt), load_json(EX / topo))
+            tlc.BUILD.mkdir(exist_ok=True)
+            with tempfile.TemporaryDirectory(dir=tlc.BUILD) as tmp:
+                (Path(tmp) / 'eqpt.json').write_text(json.dumps(eqpt_json))
+                eq = load_equipments_and_configs(Path(tmp) / 'eqpt.json', [], [])
+            net = network_from_json(topo_json, eq)
+        else:
+            eq = load_equipments_and_configs(EX / eqpt, [], [])
+            try:
+                net = load_network(EX / topo, eq)
+            except Exception as e1:                     # noqa  (YANG validation of the shipped file fails)
+                net = network_from_json(load_json(EX / topo), eq)
+                LOAD_NOTES[name] = f'load_network failed ({type(e1).__name__}); loaded with network_from_json(load_json())'
         with sim_params(sp):
             net, req, _ = designed_network(eq, net)
         res = (net, eq, req, sp)
@@ -220,13 +279,33 @@ def amp_bands(path):
             if isinstance(el, (Edfa, Multiband_amplifier))]
 
 
-def record(name, netname, src, dst, spectrum=None, ref=None, **over):
-    """run the real propagate() once on a fresh copy of the path; returns (trace, side) where trace is the integer
-    trace judged by TLC and side keeps what a human needs to read a violation (exception text, element uids)"""
+def auto_mode_request(eq, src, dst, trx_type, spacing):
+    """a service without mode, loaded like any service file: the transceiver mode is chosen by
+    propagate_and_optimize_mode (one propagation per baud rate, one update_snr per candidate mode)"""
+    from gnpy.tools.json_io import requests_from_json
+    data = {'path-request': [{
+        'request-id': f'auto-{trx_type}-{int(spacing / 1e9)}', 'source': src, 'destination': dst, 'src-tp-id': src,
+        'dst-tp-id': dst, 'bidirectional': False,
+        'path-constraints': {'te-bandwidth': {'technology': 'flexi-grid', 'trx_type': trx_type, 'trx_mode': None,
+                                              'spacing': spacing, 'path_bandwidth': 100e9}}}]}
+    r = requests_from_json(data, eq)[0]
+    r.nodes_list, r.loose_list = [dst], ['STRICT']
+    return r
+
+
+def record(name, netname, src, dst, spectrum=None, ref=None, auto_mode=None, **over):
+    """run the real propagate() - or, with auto_mode=(trx_type, spacing), the real propagate_and_optimize_mode() -
+    once on a fresh copy of the path; returns (trace, side) where trace is the integer trace judged by TLC and side
+    keeps what a human needs to read a violation (exception text, element uids).  The automatic mode selection
+    propagates once per explored baud rate: the trace holds the LAST propagation and the figures the receiver
+    reports when the call returns."""
     import gnpy.topology.request as rq
     from gnpy.core.exceptions import SpectrumError
     net, eq, base_req, sp = network(netname)
-    req = make_request(base_req, src, dst, spectrum, **over)
+    if auto_mode:
+        req = auto_mode_request(eq, src, dst, *auto_mode)
+    else:
+        req = make_request(base_req, src, dst, spectrum, **over)
     path = copy.deepcopy(rq.compute_constrained_path(net, req))
     if len(path) < 2:
         raise Machinery(f'{name}: no route from {src} to {dst} in {netname}')
@@ -242,6 +321,8 @@ def record(name, netname, src, dst, spectrum=None, ref=None, **over):
 
     def filter_si(p, equipment, si):
         from harness.record import snapshot
+        del stages[:]                   # a new propagation starts (automatic mode selection: one per baud rate)
+        rec.take()
         stages.append(('Launch', snapshot(si)))
         out = orig_filter(p, equipment, si)
         stages.append(('Filter', snapshot(out)))
@@ -251,7 +332,10 @@ def record(name, netname, src, dst, spectrum=None, ref=None, **over):
     with sim_params(sp), Recording(keep_element=False) as rec:
         rq.filter_si = filter_si
         try:
-            rq.propagate(path, req, eq)
+            if auto_mode:
+                rq.propagate_and_optimize_mode(path, req, eq)
+            else:
+                rq.propagate(path, req, eq)
         except SpectrumError as e:
             outcome, exc = 1, f'SpectrumError: {e}'
         except ValueError as e:
@@ -285,7 +369,7 @@ def record(name, netname, src, dst, spectrum=None, ref=None, **over):
         if len(d) and np.all(np.isfinite(d)):
             fdev = max(fdev, float(np.max(d)))
     rx = dict(f=[], snr=[], osnr=[], onli=[], isnr=[], iosnr=[], inli=[])
-    if outcome == 0:
+    if outcome == 0 and ev:
         t = path[-1]
         rx = dict(f=list(ev[-1]['f']), snr=udbv(t.snr), osnr=udbv(t.osnr_ase), onli=udbv(t.osnr_nli),
                   isnr=ninv(t.snr), iosnr=ninv(t.osnr_ase), inli=ninv(t.osnr_nli))
@@ -354,10 +438,22 @@ def scenarios(tier, seed):
     def std(f_mhz, w=50_000, b=32_000, lab='x', p=1e-3):
         return (hz(f_mhz), b * 1e6, w * 1e6, lab, p, 0.0, 40.0, 0.15)
 
+    def auto(tag, netname, k, trx_type, spacing):
+        def go():
+            net = network(netname)
+            if net is None:
+                return []
+            return [record(f'{netname}:{tag}:{s}->{d}', netname, s, d, auto_mode=(trx_type, spacing))
+                    for s, d in seeded_pairs(net[0], rng, k)]
+        jobs.append(go)
+
     thorough = tier == 'thorough'
     # --- mesh V2 (single band, Fused nodes, several amplifier models)
     uniform('uniform', 'mesh', 20 if thorough else 2)
     uniform('uniform-64G-75GHz+10dBm', 'mesh', 2 if thorough else 1, baud_rate=64e9, spacing=75e9, tx_power=1e-2)
+    # automatic mode selection: several candidate modes are evaluated on one propagation
+    auto('auto-mode-Voyager-75GHz', 'mesh', 6 if thorough else 3, 'Voyager', 75e9)
+    auto('auto-mode-Voyager-50GHz', 'mesh', 6 if thorough else 2, 'Voyager', 50e9)
     with_spectrum('initial_spectrum1', 'mesh', lambda: shipped_spectrum('initial_spectrum1.json'))
     with_spectrum('initial_spectrum2', 'mesh', lambda: shipped_spectrum('initial_spectrum2.json'))
     with_spectrum('one-carrier', 'mesh', lambda: carriers([std(0)]), permute=False)
@@ -376,6 +472,9 @@ def scenarios(tier, seed):
     mb = lambda: shipped_spectrum('multiband_spectrum.json')           # noqa
     with_spectrum('multiband_spectrum', 'multiband', mb, pair=('trx Site_A', 'trx Site_D'))
     with_spectrum('multiband_spectrum', 'multiband', mb, pair=('trx Site_D', 'trx Site_L'), permute=thorough)
+    # the same amplifiers met in both orders: wide single-band first / multi-band first
+    with_spectrum('multiband_spectrum', 'multiband-wide', mb, pair=('trx Site_L', 'trx Site_D'), permute=thorough)
+    with_spectrum('multiband_spectrum', 'multiband-wide', mb, pair=('trx Site_D', 'trx Site_L'), permute=False)
     if thorough:
         with_spectrum('multiband_spectrum', 'multiband', mb, pair=('trx Site_L', 'trx Site_D'))
         with_spectrum('multiband_spectrum', 'multiband', mb, pair=('trx Site_G', 'trx Site_A'))
@@ -386,6 +485,7 @@ def scenarios(tier, seed):
                               std(-4_000_000, lab='l-mid'), std(-4_050_000, lab='l-mid2')])
     with_spectrum('band-edges', 'multiband', edges, pair=('trx Site_A', 'trx Site_D'))
     with_spectrum('band-edges', 'multiband', edges, pair=('trx Site_D', 'trx Site_L'), permute=False)
+    with_spectrum('band-edges', 'multiband-wide', edges, pair=('trx Site_L', 'trx Site_D'), permute=False)
     with_spectrum('one-carrier-per-band', 'multiband', lambda: carriers([std(0, lab='c'), std(-4_000_000, lab='l')]),
                   pair=('trx Site_A', 'trx Site_D'), permute=False)
     uniform('uniform', 'multiband', 8 if thorough else 1)
@@ -394,12 +494,18 @@ def scenarios(tier, seed):
     uniform('uniform', 'edfa', 1)
     uniform('uniform', 'fusedroadm', 2 if thorough else 1)
     with_spectrum('seeded-mixed', 'fusedroadm', lambda: carriers(seeded_carriers(rng, -1_800_000, 2_000_000, 12)))
-    with_spectrum('raman-mixed', 'raman-gn', lambda: carriers(seeded_carriers(rng, -1_800_000, 2_000_000, 6)),
+    with_spectrum('raman-mixed', 'raman-lowpump', lambda: carriers(seeded_carriers(rng, -1_800_000, 2_000_000, 6)),
+                  permute=thorough)
+    # fibres of either dispersion sign, ROADMs with detailed per-path impairment profiles
+    uniform('uniform', 'mesh-mixed', 8 if thorough else 2)
+    with_spectrum('seeded-mixed', 'mesh-mixed', lambda: carriers(seeded_carriers(rng, -1_800_000, 2_000_000, 24)),
                   permute=thorough)
     if thorough:
         uniform('uniform', 'sweden4', 8)
         with_spectrum('initial_spectrum2', 'sweden5', lambda: shipped_spectrum('initial_spectrum2.json'))
         uniform('uniform', 'raman', 1)
+        with_spectrum('raman-mixed', 'raman-gn', lambda: carriers(seeded_carriers(rng, -1_800_000, 2_000_000, 6)))
+        uniform('uniform', 'raman-lowpump', 1)
         uniform('uniform', 'coronet', 8)
         with_spectrum('initial_spectrum2', 'coronet', lambda: shipped_spectrum('initial_spectrum2.json'))
     return jobs
